@@ -100,6 +100,10 @@ func (p *RunnableProcessor) Process(ctx context.Context, records []opencdc.Recor
 			}
 		}
 
+		// short is true if the processor returned fewer records than it was
+		// given; the records it did not return a result for (and everything
+		// after them) are left out of the result, so the caller retries them.
+		short := false
 		if len(keptRecords) > 0 {
 			outRecs = p.proc.Process(ctx, keptRecords)
 			if len(outRecs) > len(keptRecords) {
@@ -107,8 +111,9 @@ func (p *RunnableProcessor) Process(ctx context.Context, records []opencdc.Recor
 					sdk.ErrorRecord{Error: cerrors.New("processor returned more records than input")},
 				}
 			}
+			short = len(outRecs) < len(keptRecords)
 		}
-		if err != nil {
+		if err != nil && !short {
 			outRecs = append(outRecs, sdk.ErrorRecord{Error: err})
 		}
 
@@ -121,18 +126,21 @@ func (p *RunnableProcessor) Process(ctx context.Context, records []opencdc.Recor
 				outRecs[i] = sdk.SingleRecord(rec)
 			}
 		} else if len(passthroughRecordIndexes) > 0 {
-			tmp := make([]sdk.ProcessedRecord, len(outRecs)+len(passthroughRecordIndexes))
-			prevIndex := -1
-			for i, index := range passthroughRecordIndexes {
-				// TODO index-i can be out of bounds if the processor returns
-				//  fewer records than the input.
-				copy(tmp[prevIndex+1:index], outRecs[prevIndex-i+1:index-i])
-				tmp[index] = sdk.SingleRecord(records[index])
-				prevIndex = index
-			}
-			// if the last index is not the last record, copy the rest
-			if passthroughRecordIndexes[len(passthroughRecordIndexes)-1] != len(tmp)-1 {
-				copy(tmp[prevIndex+1:], outRecs[prevIndex-len(passthroughRecordIndexes)+1:])
+			tmp := make([]sdk.ProcessedRecord, 0, len(outRecs)+len(passthroughRecordIndexes))
+			nextOut, nextPassthrough := 0, 0
+			for i := range records {
+				if nextPassthrough < len(passthroughRecordIndexes) && passthroughRecordIndexes[nextPassthrough] == i {
+					tmp = append(tmp, sdk.SingleRecord(records[i]))
+					nextPassthrough++
+					continue
+				}
+				if nextOut >= len(outRecs) {
+					// The processor returned fewer records than the input (or
+					// the condition failed on this record), stop here.
+					break
+				}
+				tmp = append(tmp, outRecs[nextOut])
+				nextOut++
 			}
 			outRecs = tmp
 		}
